@@ -1,12 +1,18 @@
 import Glom.Spec.C16
 import Glom.Spec.C16Src
+import Glom.Model.C16State
 import Glom.Generated.GroupFacts
 /-
   C16: the facts regenerated from /repo, paired with the statements the model transcribes.
 -/
 namespace Glom.C16
 
+/-- state outside the accumulator tree, as the extractor finds it in grouping.py and reduction.py -/
+def genStateFacts : StateFacts :=
+  ⟨Generated.stSelfWrites, Generated.stGlobalWrites, Generated.stMutableGlobals, Generated.stClassState⟩
+
 def genWF : Bool :=
   WFSrc Generated.grpStmts Generated.grpSlots Generated.grpGlobals Generated.grpGlobalStmts Generated.tArith
+    Generated.grpAround Generated.grpMethods && genStateFacts.quiet
 
 end Glom.C16
